@@ -33,7 +33,7 @@ COMMON = dict(
     p_wrap=0.4,
     max_nodes=12,
     item_fault_modes=["error", "unset", "falsyerror"],
-    exc_cls=["exc", "exc", "falsy"],
+    exc_cls=["exc", "exc", "falsy", "frozen"],
     try_kinds=["exc", "exc", "none"],
     w_stmt=dict(sync=2.2, raise_=0.6, try_=1.0, with_=1.6, ret=0.3, orphan=0.3, read=0.3),
     w_leaf=dict(call=6, item=5, err=0.4, junk=0.08, lazy=0.5, again=0.4, dbg=0.0, const=0.8),
